@@ -37,96 +37,76 @@ def _num(node):
 
 
 def rule_si(ctx):
+    """si() is interpreted on representatives of every decade class: x is touched only by order comparisons with the decade
+    boundaries and by one multiplication, so the lower boundary, an interior point and a point just below the upper boundary
+    decide each decade (and the boundaries decide contiguity), however the ladder is written (if-chain, table, loop)."""
     pkg = ctx.pkg
     fi = pkg.func("utils.si")
     xname = fi.params[0]
-    it = Interp(pkg)
-    rows = []
-    for n in fi.node.body:
-        if not isinstance(n, ast.If):
-            continue
-        rets = [s for s in n.body if isinstance(s, ast.Return)]
-        if not rets or not isinstance(rets[0].value, ast.JoinedStr):
-            continue
-        js = rets[0].value
-        fvals = [v for v in js.values if isinstance(v, ast.FormattedValue)]
-        if not fvals:
-            continue
-        # bounds from the test
-        lo = hi = None
-        t = n.test
-        ok = True
-        if isinstance(t, ast.Compare):
-            terms = [t.left] + list(t.comparators)
-            for i, op in enumerate(t.ops):
-                a, b = terms[i], terms[i + 1]
-                if isinstance(b, ast.Name) and b.id == xname and isinstance(op, (ast.LtE,)):
-                    lo = _num(a)
-                elif isinstance(a, ast.Name) and a.id == xname and isinstance(op, (ast.Lt,)):
-                    hi = _num(b)
-                elif isinstance(a, ast.Name) and a.id == xname and isinstance(op, (ast.GtE,)):
-                    lo = _num(b)
-                elif isinstance(b, ast.Name) and b.id == xname and isinstance(op, (ast.Gt,)):
-                    hi = _num(a)
-                elif isinstance(op, ast.Eq):
-                    ok = False
-                else:
-                    ok = None
-        else:
-            ok = None
-        if ok is False:
-            continue  # the x == 0 branch
-        if ok is None or lo is None:
-            ctx.unknown("C19.1", fi, n, None, "branch test of si() not of the form lo <= x < hi")
-            continue
-        # scale: value formatted first
-        st = State({xname: S(xname)})
-        val = it.eval(fvals[0].value, st, fi, 0)
-        scale = None
-        if isinstance(val, Form):
-            q = (val / S(xname)).rational()
-            scale = q
-        # prefix: constant text following the mantissa up to the unit placeholder
-        idx = js.values.index(fvals[0])
-        txt = ""
-        if idx + 1 < len(js.values) and isinstance(js.values[idx + 1], ast.Constant):
-            txt = str(js.values[idx + 1].value)
-        prefix = txt.strip()
-        rows.append((n, lo, hi, scale, prefix))
-    if len(rows) < 5:
-        ctx.unknown("C19.1", fi, fi.node, "si ladder", f"only {len(rows)} decade branches recognised")
-        return
-    for n, lo, hi, scale, prefix in rows:
-        cons = f"si branch {src_of(n.test)} -> prefix '{prefix}'"
-        if prefix not in SI_EXP:
-            ctx.violation("C19.1", fi, n, cons, f"'{prefix}' is not an SI prefix of the documented ladder")
-            continue
-        e = SI_EXP[prefix]
+
+    def probe(x):
+        it = Interp(pkg, param_values={xname: Form.num(x)})
+        it.unroll_literal_loops = True
+        outs = it.run(fi)
+        return [o for o in outs if o.kind == "return"], outs
+
+    def parse(v):
+        """(mantissa, text after it) of a returned 'mantissa prefix+unit' string form"""
+        if isinstance(v, Const) and isinstance(v.v, str):
+            return None
+        a = v.single_atom() if isinstance(v, Form) else None
+        if not (a and a[0] == "fn" and a[1] == "fstr" and a[2]):
+            return None
+        parts = list(a[2])
+        first = parts[0]
+        if isinstance(first, Const):
+            # literal mantissa ('0 ' + unit)
+            txt = str(first.v)
+            num = txt.strip().split(" ")[0]
+            try:
+                return Fraction(num), txt[len(num):].strip() if txt.strip() != num else ""
+            except Exception:
+                return None
+        fa = first.single_atom() if isinstance(first, Form) else None
+        if not (fa and fa[0] == "fn" and fa[1] == "fmt" and isinstance(fa[2][0], Form) and fa[2][0].rational() is not None):
+            return None
+        txt = str(parts[1].v) if len(parts) > 1 and isinstance(parts[1], Const) else ""
+        return fa[2][0].rational(), txt.strip()
+    decades = list(range(-15, 13, 3))
+    for e in decades:
         ten = Fraction(10) ** e
-        if scale is None:
-            ctx.unknown("C19.1", fi, n, cons, "mantissa is not a constant multiple of x")
-        elif scale * ten != 1:
-            ctx.violation("C19.1", fi, n, cons, f"mantissa is x*{float(scale):g} but prefix '{prefix}' means 1e{e}: printed value times prefix is x*{float(scale*ten):g}, not x")
-        elif lo != ten:
-            ctx.violation("C19.1", fi, n, cons, f"lower bound {float(lo):g} is not 1e{e}: mantissa leaves [1,1000)")
-        elif hi is not None and hi != ten * 1000:
-            ctx.violation("C19.1", fi, n, cons, f"upper bound {float(hi):g} is not 1e{e+3}")
+        top = e == decades[-1]
+        pts = [ten, ten * Fraction(5, 2), ten * Fraction(1999, 2)] + ([ten * 10 ** 3, ten * 10 ** 7] if top else [])
+        probs, where = [], fi.node
+        for x in pts:
+            rets, outs = probe(x)
+            if len(rets) != 1:
+                probs.append(f"si({float(x):g}) has {len(rets)} return paths (decade test not decided)")
+                continue
+            where = rets[0].node
+            if isinstance(rets[0].value, Const) and rets[0].value.v is None:
+                probs.append(f"si({float(x):g}) falls through and returns None: the ladder has a gap at 1e{e}" + (" (top decade is bounded)" if top and x >= ten * 1000 else ""))
+                continue
+            pr = parse(rets[0].value)
+            if pr is None:
+                probs.append(f"si({float(x):g}) = {rets[0].value!r}: not a 'mantissa prefix+unit' string"[:200])
+                continue
+            mant, prefix = pr
+            if prefix not in SI_EXP:
+                probs.append(f"si({float(x):g}) uses '{prefix}', not an SI prefix of the documented ladder")
+            elif mant * Fraction(10) ** SI_EXP[prefix] != x:
+                probs.append(f"si({float(x):g}) prints mantissa {float(mant):g} with prefix '{prefix}' (1e{SI_EXP[prefix]}): that reads as {float(mant * Fraction(10) ** SI_EXP[prefix]):g}, not x")
+            elif SI_EXP[prefix] != e:
+                probs.append(f"si({float(x):g}) uses prefix '{prefix}' (1e{SI_EXP[prefix]}); mantissa {float(mant):g} leaves [1, 1000): decade boundary misplaced")
+        cons = f"si decade [1e{e}, {'inf' if top else '1e%d' % (e + 3)})"
+        if probs:
+            ctx.violation("C19.1", fi, where, cons, "; ".join(probs[:2]))
         else:
-            ctx.holds("C19.1", fi, n, cons, f"scale*1e{e}=1, range [1e{e}, {'inf' if hi is None else '1e%d' % (e+3)})")
-    # contiguity
-    srt = sorted(rows, key=lambda r: r[1])
-    gaps = []
-    for a, b in zip(srt, srt[1:]):
-        if a[2] != b[1]:
-            gaps.append((a, b))
-    if srt[0][1] != Fraction(10) ** -15:
-        ctx.violation("C19.1", fi, srt[0][0], "si ladder start", f"ladder starts at {float(srt[0][1]):g}, documented 1e-15")
-    if srt[-1][2] is not None:
-        ctx.violation("C19.1", fi, srt[-1][0], "si ladder top", "top decade is bounded: large x falls through and returns None")
-    for a, b in gaps:
-        ctx.violation("C19.1", fi, b[0], "si ladder contiguity", f"gap/overlap between {float(a[2]) if a[2] else 'inf'} and {float(b[1]):g}")
-    if not gaps:
-        ctx.holds("C19.1", fi, fi.node, "si ladder contiguity", f"{len(rows)} decades contiguous from 1e-15 upward")
+            ctx.holds("C19.1", fi, where, cons, f"mantissa*1e{e} = x and mantissa in [1, 1000) at the boundary, inside and just below the next boundary")
+    rets, outs = probe(Fraction(0))
+    pr = parse(rets[0].value) if len(rets) == 1 else None
+    okz = pr is not None and pr[0] == 0
+    ctx.check("C19.1", okz, fi, rets[0].node if rets else fi.node, "si(0)", "'0 unit'", "si(0) does not print a zero mantissa")
 
 
 # -- log/exp simplification used by C19.2
@@ -210,20 +190,11 @@ def rule_db(ctx):
         fi, node, _ = forms[outer]
         ctx.check("C19.2", comp == x, fi, node, f"{outer}({inner}(x))", "reduces to x",
                   f"{outer}({inner}(x)) reduces to {comp!r}, not x")
-    # negative input -> ValueError
+    # negative input -> ValueError (decided on the sign classes of a scalar input; arrays go through the same comparison)
+    from ..rules import Reject, check_range_guard
     for name in ("db", "dbm"):
         fi = pkg.func(f"utils.{name}")
-        ok = None
-        for ifn, test, excs in find_raise_guards(fi):
-            cmps = [c for c in ast.walk(test) if isinstance(c, ast.Compare) and len(c.ops) == 1]
-            for c in cmps:
-                neg = (isinstance(c.ops[0], ast.Lt) and _num(c.comparators[0]) == 0) or (isinstance(c.ops[0], ast.Gt) and _num(c.left) == 0)
-                if neg and "ValueError" in excs:
-                    ok = ifn
-        if ok is not None:
-            ctx.holds("C19.2", fi, ok, f"{name}: negative input rejected", "ValueError guard on x<0")
-        else:
-            ctx.violation("C19.2", fi, fi.node, f"{name}: negative input rejected", "no `x < 0 -> ValueError` guard")
+        check_range_guard(ctx, "C19.2", fi, fi.params[0], Reject(lambda x: x < 0, [0]), "ValueError", f"{name}: negative input rejected", accept_sample=[0, 1, Fraction(1, 2)], integer=False)
 
 
 def rule_q_gaus(ctx):
@@ -300,38 +271,24 @@ def rule_dec2bin(ctx):
     pkg = ctx.pkg
     fi = pkg.func("utils.dec2bin")
     num, digits = fi.params[0], fi.params[1]
-    # guard: num > 2**digits - 1 -> ValueError, before the loop
+    # guard: num > 2**digits - 1 -> ValueError; num and digits are compared with each other only through 2**digits-1, so
+    # the order classes of num around that limit decide it for each width
+    from ..rules import Reject, check_range_guard
+    for d in (1, 3, 8):
+        lim = 2 ** d - 1
+        check_range_guard(ctx, "C19.5", fi, num, Reject(lambda x, L=lim: x > L, [lim]), "ValueError", f"dec2bin range guard: num > 2**{d}-1", accept_sample=[0, 1, lim],
+                          base={digits: Form.num(d)}, integer=True)
     loop = next((n for n in fi.node.body if isinstance(n, (ast.While, ast.For))), None)
-    guard = None
-    for ifn, test, excs in find_raise_guards(fi):
-        if {num, digits} <= names_in(test):
-            guard = (ifn, test, excs)
-    if guard is None:
-        ctx.violation("C19.5", fi, fi.node, "dec2bin range guard", "no guard rejecting num > 2**digits-1")
-    else:
-        ifn, test, excs = guard
-        it = Interp(pkg)
-        v = it.eval(test, State({num: S("num"), digits: S("digits")}), fi, 0)
-        lim = fpow(Form.num(2), S("digits")) - 1
-        ok_forms = (mk_fn("gt", [S("num"), lim]), mk_fn("ge", [S("num"), lim + 1]), mk_fn("lt", [lim, S("num")]), mk_fn("le", [lim + 1, S("num")]))
-        if v not in ok_forms:
-            ctx.violation("C19.5", fi, ifn, "dec2bin range guard", f"guard `{src_of(test)}` is not `num > 2**digits-1`")
-        elif "ValueError" not in excs:
-            ctx.violation("C19.5", fi, ifn, "dec2bin range guard", f"raises {excs}, documented ValueError")
-        elif loop is not None and ifn.lineno > loop.lineno:
-            ctx.violation("C19.5", fi, ifn, "dec2bin range guard", "guard is evaluated after the conversion loop")
-        else:
-            ctx.holds("C19.5", fi, ifn, "dec2bin range guard", "num > 2**digits-1 -> ValueError before the loop")
     if loop is None:
         ctx.unknown("C19.5", fi, fi.node, "dec2bin loop", "conversion loop not found")
         return
-    # loop: binary[i] = num % 2 ; num //= 2 ; i -= 1 with i starting at digits-1
+    # loop: bits[i] = num % 2 ; num //= 2, with i running from digits-1 downward (explicit counter or reversed range)
     store = halve = dec = None
     for n in ast.walk(loop):
         if isinstance(n, ast.Assign) and isinstance(n.targets[0], ast.Subscript):
             store = n
         if isinstance(n, ast.AugAssign) and isinstance(n.target, ast.Name):
-            if n.target.id == num and isinstance(n.op, ast.FloorDiv) and _num(n.value) == 2:
+            if n.target.id == num and ((isinstance(n.op, ast.FloorDiv) and _num(n.value) == 2) or (isinstance(n.op, ast.RShift) and _num(n.value) == 1)):
                 halve = n
             elif isinstance(n.op, ast.Sub) and _num(n.value) == 1:
                 dec = n
@@ -339,22 +296,33 @@ def rule_dec2bin(ctx):
             if src_of(n.value).replace(" ", "") in (f"{num}//2", f"{num}>>1"):
                 halve = n
     inc = [n for n in ast.walk(loop) if isinstance(n, ast.AugAssign) and isinstance(n.target, ast.Name) and isinstance(n.op, ast.Add) and _num(n.value) == 1 and n.target.id != num]
-    if store is not None and halve is not None and dec is None and inc and src_of(store.targets[0].slice) == inc[0].target.id:
+    idxname = src_of(store.targets[0].slice) if store is not None else None
+    if store is not None and halve is not None and dec is None and inc and idxname == inc[0].target.id:
         ctx.violation("C19.5", fi, store, f"{src_of(store)}; {src_of(halve)}; {src_of(inc[0])}", "the least significant bit is stored first and the index increases: the expansion is little-endian, not big-endian")
         return
-    if store is None or halve is None or dec is None:
+    # index progression: digits-1, digits-2, ... either by an explicit counter or as the target of a descending range
+    down = None
+    if isinstance(loop, ast.For) and isinstance(loop.target, ast.Name) and loop.target.id == idxname:
+        it = src_of(loop.iter).replace(" ", "")
+        if it in (f"range({digits}-1,-1,-1)", f"reversed(range({digits}))", f"range({digits})[::-1]"):
+            down = "range"
+        elif it in (f"range({digits})", f"range(0,{digits})", f"range(0,{digits},1)"):
+            ctx.violation("C19.5", fi, store, f"for {idxname} in {src_of(loop.iter)}: {src_of(store)}", "the least significant bit is stored first and the index increases: the expansion is little-endian, not big-endian")
+            return
+    elif dec is not None and dec.target.id == idxname:
+        init = None
+        for n in fi.node.body:
+            if isinstance(n, ast.Assign) and isinstance(n.targets[0], ast.Name) and n.targets[0].id == idxname:
+                init = n
+        if init is not None and src_of(init.value).replace(" ", "") in (f"{digits}-1", f"-1+{digits}"):
+            down = "counter"
+    if store is None or halve is None or (down is None and dec is None and not isinstance(loop, ast.For)):
         ctx.unknown("C19.5", fi, loop, "dec2bin loop", "store / halving / index decrement idiom not recognised")
         return
     rhs_ok = src_of(store.value).replace(" ", "") in (f"{num}%2", f"{num}&1")
-    idxname = src_of(store.targets[0].slice)
-    init = None
-    for n in fi.node.body:
-        if isinstance(n, ast.Assign) and isinstance(n.targets[0], ast.Name) and n.targets[0].id == idxname:
-            init = n
-    init_ok = init is not None and src_of(init.value).replace(" ", "") == f"{digits}-1"
     order_ok = store.lineno < halve.lineno
-    ctx.check("C19.5", rhs_ok and init_ok and order_ok and dec.target.id == idxname, fi, store,
-              f"{src_of(store)}; {src_of(halve)}; {src_of(dec)}", "LSB stored at index digits-1 downward (big-endian)",
+    ctx.check("C19.5", rhs_ok and down is not None and order_ok, fi, store,
+              f"{src_of(store)}; {src_of(halve)}; index from {digits}-1 downward ({down})", "LSB stored at index digits-1 downward (big-endian)",
               "loop does not store num%2 from index digits-1 downward before halving: expansion is not big-endian")
 
 
@@ -396,11 +364,39 @@ def rule_str2array(ctx):
     pkg = ctx.pkg
     fi = pkg.func("utils._get_type_array_from_str")
     rows = []
-    for n in fi.node.body:
-        if isinstance(n, ast.If) and isinstance(n.test, ast.Call) and src_of(n.test.func) in ("re.match", "re.fullmatch") and n.body and isinstance(n.body[0], ast.Return):
-            pat = n.test.args[0]
-            if isinstance(pat, ast.Constant) and isinstance(pat.value, str):
-                rows.append((n, pat.value, src_of(n.body[0].value), src_of(n.test.func)))
+    body = [n for n in fi.node.body if not (isinstance(n, ast.Expr) and isinstance(n.value, ast.Constant))]
+    # the result variable when the chain assigns and a single `return <name>` follows
+    retname = body[-1].value.id if body and isinstance(body[-1], ast.Return) and isinstance(body[-1].value, ast.Name) else None
+    fall_through = None   # (node, source of the value produced when no pattern matches)
+
+    def result_of(stmts):
+        for s_ in stmts:
+            if isinstance(s_, ast.Return):
+                return src_of(s_.value) if s_.value is not None else "None"
+            if retname and isinstance(s_, ast.Assign) and len(s_.targets) == 1 and isinstance(s_.targets[0], ast.Name) and s_.targets[0].id == retname:
+                return src_of(s_.value)
+        return None
+
+    def is_match(t):
+        return isinstance(t, ast.Call) and src_of(t.func) in ("re.match", "re.fullmatch") and t.args and isinstance(t.args[0], ast.Constant) and isinstance(t.args[0].value, str)
+
+    def walk_chain(stmts):
+        nonlocal fall_through
+        for n in stmts:
+            if isinstance(n, ast.If) and is_match(n.test):
+                r = result_of(n.body)
+                if r is not None:
+                    rows.append((n, n.test.args[0].value, r, src_of(n.test.func)))
+                if n.orelse:
+                    if len(n.orelse) == 1 and isinstance(n.orelse[0], ast.If):
+                        walk_chain(n.orelse)
+                    else:
+                        r2 = result_of(n.orelse)
+                        if r2 is not None:
+                            fall_through = (n.orelse[0], r2)
+            elif isinstance(n, ast.Return) and not (retname and isinstance(n.value, ast.Name) and n.value.id == retname):
+                fall_through = (n, src_of(n.value) if n.value is not None else "None")
+    walk_chain(body)
     if len(rows) != 4:
         ctx.unknown("C19.6", fi, fi.node, "type-inference regexes", f"expected 4 regex branches, found {len(rows)}")
         return
@@ -434,69 +430,89 @@ def rule_str2array(ctx):
         else:
             ctx.holds("C19.6", fi, n, cons, f"{len(chars)} characters, anchored")
         prev = chars
-    last = fi.node.body[-1]
-    ctx.check("C19.6", isinstance(last, ast.Return) and src_of(last.value) == "None", fi, last, "fall-through returns None",
+    last = fall_through[0] if fall_through else fi.node.body[-1]
+    ctx.check("C19.6", fall_through is not None and fall_through[1] == "None", fi, last, "fall-through returns None",
               "unmatched text yields None", "fall-through of the regex chain does not return None")
-    # str2array: None -> ValueError ; i->j ; separators ; dtype applied last
-    f2 = pkg.func("utils.str2array")
-    src = f2.node
-    raises = [n for n in body_nodes(f2) if isinstance(n, ast.Raise)]
-    ok_raise = any(isinstance(r.exc, ast.Call) and src_of(r.exc.func) == "ValueError" for r in raises)
-    # the raise must be in the final else of the dtype dispatch
-    disp = next((n for n in f2.node.body if isinstance(n, ast.If)), None)
-    tail = disp
-    while tail is not None and len(tail.orelse) == 1 and isinstance(tail.orelse[0], ast.If):
-        tail = tail.orelse[0]
-    else_raises = tail is not None and any(isinstance(s, ast.Raise) for s in tail.orelse)
-    ctx.check("C19.6", ok_raise and else_raises, f2, tail or f2.node, "str2array: invalid characters", "else branch raises ValueError",
-              "text matching no class does not reach `raise ValueError`")
-    rep = [n for n in body_nodes(f2) if isinstance(n, ast.Call) and isinstance(n.func, ast.Attribute) and n.func.attr == "replace"
-           and len(n.args) == 2 and all(isinstance(a, ast.Constant) for a in n.args) and (n.args[0].value, n.args[1].value) == ("i", "j")]
-    ctx.check("C19.6", bool(rep), f2, rep[0] if rep else f2.node, "str2array: i -> j", "imaginary unit i rewritten to j",
-              "no replace('i','j') before complex parsing: 'i' as imaginary unit is not accepted")
-    splits = [n for n in body_nodes(f2) if isinstance(n, ast.Call) and src_of(n.func) == "re.split" and n.args and isinstance(n.args[0], ast.Constant)]
-    bad = [n for n in splits if n.args[0].value != r"[,\s]+"]
-    if not splits:
-        ctx.unknown("C19.6", f2, f2.node, "str2array: element separators", "no re.split call found")
-    for n in splits:
-        ctx.check("C19.6", n.args[0].value == r"[,\s]+", f2, n, f"re.split({n.args[0].value!r}, ...)", "elements split on commas/whitespace",
-                  f"element separator pattern {n.args[0].value!r} is not [,\\s]+")
-    rowsplit = [n for n in body_nodes(f2) if isinstance(n, ast.Call) and isinstance(n.func, ast.Attribute) and n.func.attr == "split"
-                and len(n.args) == 1 and isinstance(n.args[0], ast.Constant)]
-    for n in rowsplit:
-        ctx.check("C19.6", n.args[0].value == ";", f2, n, f".split({n.args[0].value!r})", "rows split on ';'",
-                  f"row separator {n.args[0].value!r} is not ';'")
-    # the digit-by-digit (bit pattern) branch is taken only without a numeric dtype: int, float AND complex are numeric
+    # str2array, interpreted for every (inferred class, requested dtype) pair: the inferred class and dtype are only compared with
+    # the five type objects, so the 5 x 5 table is exhaustive.  Decided on the value forms of the returned array.
     from ..absint import ClassRef
-    bool_branch = None
-    for n in f2.node.body:
-        if isinstance(n, ast.If) and "bool" in src_of(n.test):
-            bool_branch = n
-    inner = next((n for n in (bool_branch.body if bool_branch else []) if isinstance(n, ast.If)), None)
-    if inner is None:
-        ctx.unknown("C19.6", f2, f2.node, "str2array: numeric-dtype test in the 0/1 branch", "branch structure not recognised")
+    from ..forms import contains_atom
+    f2 = pkg.func("utils.str2array")
+    sname, dname = f2.params[0], f2.params[1]
+    infer = mk_fn("_get_type_array_from_str", [S(sname)])
+
+    def run_case(kind, dt):
+        it = Interp(pkg, param_values={dname: Const(None) if dt is None else ClassRef(dt)}, valuation=[(infer, ClassRef(kind) if kind else Const(None))],
+                    no_inline=("_get_type_array_from_str",))
+        it.keep_astype = True
+        outs = it.run(f2)
+        return [o for o in outs if o.kind == "return"], outs
+
+    def has(v, pred):
+        return isinstance(v, Form) and contains_atom(v, pred)
+    is_resplit = lambda a: a[0] == "fn" and a[1] == "re.split"
+    is_replace_ij = lambda a: a[0] == "meth" and a[2] == "replace" and len(a[3]) == 2 and a[3][0] == Const("i") and a[3][1] == Const("j")
+    is_listchars = lambda a: a[0] == "fn" and a[1] == "list"
+    rets, outs = run_case(None, None)
+    ctx.check("C19.6", not rets and bool(outs) and outs[-1].exc == "ValueError", f2, outs[-1].node if outs else f2.node, "str2array: invalid characters", "text matching no class raises ValueError",
+              "text matching no class does not reach `raise ValueError`")
+    rets, outs = run_case("complex", None)
+    okc = len(rets) == 1 and has(rets[0].value, is_replace_ij) and has(rets[0].value, is_resplit)
+    ctx.check("C19.6", okc, f2, rets[0].node if rets else f2.node, "str2array: i -> j", "imaginary unit i rewritten to j before token-wise parsing",
+              "no replace('i','j') before complex parsing: 'i' as imaginary unit is not accepted")
+    # separators, read off the forms of the numeric parse
+    seps_seen = 0
+    for kind in ("int", "float", "complex"):
+        rets, outs = run_case(kind, None)
+        if len(rets) != 1 or not isinstance(rets[0].value, Form):
+            ctx.unknown("C19.6", f2, f2.node, f"str2array [{kind}]", f"{len(rets)} return paths")
+            continue
+        v = rets[0].value
+        pats = {a[2][0].v for a in v.atoms() if is_resplit(a) and a[2] and isinstance(a[2][0], Const)}
+        rowseps = {a[3][0].v for a in v.atoms() if a[0] == "meth" and a[2] == "split" and len(a[3]) == 1 and isinstance(a[3][0], Const)}
+        seps_seen += 1
+        ctx.check("C19.6", pats == {r"[,\s]+"}, f2, rets[0].node, f"str2array [{kind}]: element separator pattern(s) {sorted(pats)}", "elements split on commas/whitespace",
+                  f"element separator pattern {sorted(pats)} is not [,\\s]+")
+        ctx.check("C19.6", rowseps == {";"}, f2, rets[0].node, f"str2array [{kind}]: row separator(s) {sorted(rowseps)}", "rows split on ';'", f"row separator {sorted(rowseps)} is not ';'")
+    if not seps_seen:
+        ctx.unknown("C19.6", f2, f2.node, "str2array: element separators", "numeric parse not interpreted")
+    # text made of 0/1 digits: token-wise for every numeric dtype, digit-by-digit otherwise
+    wrong, undec = [], []
+    where = f2.node
+    for dt, token_wise in (("int", True), ("float", True), ("complex", True), ("bool", False), (None, False)):
+        rets, outs = run_case("bool", dt)
+        if len(rets) != 1 or not isinstance(rets[0].value, Form):
+            undec.append(str(dt))
+            continue
+        where = rets[0].node
+        v = rets[0].value
+        tw, dw = has(v, is_resplit), has(v, is_listchars)
+        if tw == dw:
+            undec.append(str(dt))
+        elif tw != token_wise:
+            wrong.append(str(dt))
+    if wrong:
+        ctx.violation("C19.6", f2, where, "str2array: 0/1 text dispatch on dtype", f"dtype {wrong} is routed to the wrong parser: text made of 0/1 digits must be read token-wise for every numeric dtype "
+                      "(int, float, complex) and digit-by-digit otherwise")
+    elif undec:
+        ctx.unknown("C19.6", f2, where, "str2array: 0/1 text dispatch on dtype", f"parser not identified for dtype {undec}")
     else:
-        verdict = {}
-        for nm, val in (("int", ClassRef("int")), ("float", ClassRef("float")), ("complex", ClassRef("complex")), ("bool", ClassRef("bool")), ("None", Const(None))):
-            it = Interp(pkg, param_values={f2.params[1]: val})
-            st = State({f2.params[1]: val, f2.params[0]: S(f2.params[0])})
-            verdict[nm] = it.truth(inner.test, st, f2, 0)
-        numeric_first = any(isinstance(x, ast.Call) and src_of(x.func) == "re.split" for s_ in inner.body for x in ast.walk(s_))
-        want = {"int": True, "float": True, "complex": True, "bool": False, "None": False}
-        if not numeric_first:
-            want = {k: not v for k, v in want.items()}
-        wrong = [k for k in want if verdict[k] is not None and verdict[k] != want[k]]
-        undec = [k for k in want if verdict[k] is None]
-        if wrong:
-            ctx.violation("C19.6", f2, inner, f"str2array: 0/1 text dispatch `{src_of(inner.test)}`", f"dtype {wrong} is routed to the wrong parser: text made of 0/1 digits must be read token-wise for every numeric dtype "
-                          "(int, float, complex) and digit-by-digit otherwise")
-        elif undec:
-            ctx.unknown("C19.6", f2, inner, f"str2array: 0/1 text dispatch `{src_of(inner.test)}`", f"test not decidable for dtype {undec}")
-        else:
-            ctx.holds("C19.6", f2, inner, f"str2array: 0/1 text dispatch `{src_of(inner.test)}`", "int/float/complex -> token-wise, bool/None -> digit-by-digit")
+        ctx.holds("C19.6", f2, where, "str2array: 0/1 text dispatch on dtype", "int/float/complex -> token-wise, bool/None -> digit-by-digit")
+    # an explicit dtype is applied to the parsed array last; none leaves the parsed array as it is
+    ok = True
+    why = ""
+    for kind in ("bool", "int", "complex"):
+        base_rets, _ = run_case(kind, None)
+        for dt in ("int", "float", "complex", "bool"):
+            rets, _ = run_case(kind, dt)
+            if len(rets) != 1 or not isinstance(rets[0].value, Form):
+                ok, why = False, f"[{kind}, dtype={dt}]: {len(rets)} return paths"
+                continue
+            a = rets[0].value.single_atom()
+            if not (a and a[0] == "fn" and a[1] == "astype" and len(a[2]) == 2 and a[2][1] == ClassRef(dt)):
+                ok, why = False, f"[{kind} text, dtype={dt}]: result is not <parsed>.astype(dtype)"
     last = f2.node.body[-1]
-    ok = isinstance(last, ast.Return) and isinstance(last.value, ast.IfExp) and "astype" in src_of(last.value.body) and src_of(last.value.test) == f2.params[1]
-    ctx.check("C19.6", ok, f2, last, src_of(last), "explicit dtype applied last", "explicit dtype is not applied to the parsed array at the end")
+    ctx.check("C19.6", ok, f2, last, "str2array: explicit dtype applied last", "result = parsed.astype(dtype) for every class of text", "explicit dtype is not applied to the parsed array at the end " + why)
 
 
 def run(ctx):
